@@ -4,7 +4,7 @@
    model and property agree, otherwise a small code (see [classify]).  Element values and fills are integer
    tokens (the little-endian bytes of the element), so floats are never compared as floats. *)
 From Coq Require Import ZArith List Bool String.
-From Verif Require Import Py Shape COO S_npz Npz NpzP Judge.
+From Verif Require Import Py Shape COO S_npz Npz Crc32 NpzP Judge.
 Import ListNotations.
 Open Scope Z_scope.
 
@@ -176,3 +176,7 @@ Definition judge_fault (c : jarr * list Z) : Z :=
   else if existsb (fun o => o =? 0) outs && negb (raises Unreadable && raises (Archive false [])) then 8
   else if existsb (fun o => o =? 1) outs && negb intact_same then 8
   else 0.
+
+(* ---- CRC-32: the Gallina function against zlib.crc32 / the CRC recorded in a real archive.  1 = differs *)
+Definition judge_crc (c : list Z * Z) : Z :=
+  let '(msg, z) := c in if crc32 msg =? z then 0 else 1.
